@@ -324,7 +324,7 @@ func c07Variants(w *World, wc *wireCtx, r *Report) {
 		}
 		var usesKey, usesVal bool
 		for _, st := range wc.m.sitesOf(fn) {
-			pf := pairFieldsEmitted(st.val)
+			pf := pairUse(wc, st)
 			if pf["Key"] {
 				usesKey = true
 			}
